@@ -378,6 +378,15 @@ enum StrStyle {
 // Numeric anchor id used internally.
 type AnchorId = u32;
 
+/// Where the name of an enum variant with a payload starts after its anchor ended the line.
+#[derive(Clone, Copy)]
+enum VariantStart {
+    /// Nothing special: at the current depth, or under the key it is the value of.
+    Unchanged,
+    /// The anchor ended the line of a `- ` at this depth.
+    UnderDash(usize),
+}
+
 /// Writer adapter that remembers how the current output line begins: its indentation and the
 /// `- ` (also `? ` and `: `) entry indicators written on it. Block scalar headers need it, because their explicit
 /// indentation indicator counts from the column of the enclosing key or dash.
@@ -898,6 +907,50 @@ impl<'a, W: Write> YamlSerializer<'a, W> {
             self.newline()?;
         }
         Ok(())
+    }
+
+    /// A pending anchor belongs to a variant mapping (`Variant: payload`) as a whole, not to
+    /// its payload: write it now and end the line, as for any other block mapping. Returns
+    /// where the variant name then has to start.
+    fn write_anchor_before_variant(&mut self) -> Result<VariantStart> {
+        if self.pending_anchor_id.is_none() {
+            return Ok(VariantStart::Unchanged);
+        }
+        let value_position = self.pending_space_after_colon;
+        let after_dash = if !self.at_line_start && !value_position {
+            self.after_dash_depth
+        } else {
+            None
+        };
+        self.write_anchor_for_complex_node()?;
+        if value_position {
+            // Still the value of `key:`; only the line break is already there.
+            self.pending_space_after_colon = true;
+            Ok(VariantStart::Unchanged)
+        } else if let Some(d) = after_dash {
+            Ok(VariantStart::UnderDash(d))
+        } else {
+            Ok(VariantStart::Unchanged)
+        }
+    }
+
+    /// Indentation of a variant name that starts a line.
+    fn write_variant_indent(&mut self, start: VariantStart) -> Result<()> {
+        if !self.at_line_start {
+            return Ok(());
+        }
+        match start {
+            // Two columns right of the dash, where it would have been on the dash's line.
+            VariantStart::UnderDash(d) => {
+                for _ in 0..self.indent_step * d {
+                    self.out.write_char(' ')?;
+                }
+                self.out.write_str("  ")?;
+                self.at_line_start = false;
+                Ok(())
+            }
+            VariantStart::Unchanged => self.write_indent(self.depth),
+        }
     }
 
     /// Emit an alias `*name`. Adds a newline in block style.
@@ -1461,6 +1514,7 @@ impl<'a, 'b, W: Write> Serializer for &'a mut YamlSerializer<'b, W> {
             // Inside a flow collection (or as a composite key) the variant is a one-entry
             // flow mapping.
             self.write_space_if_pending()?;
+            self.write_scalar_prefix_if_anchor()?;
             self.out.write_str("{")?;
             self.write_plain_or_quoted(variant)?;
             self.out.write_str(": ")?;
@@ -1477,10 +1531,13 @@ impl<'a, 'b, W: Write> Serializer for &'a mut YamlSerializer<'b, W> {
         // Emit the variant mapping on the next line indented one level. Also, do not insert
         // a space after the colon when the value may itself be a mapping; instead, defer
         // space insertion to the value serializer via pending_space_after_colon.
+        let start = self.write_anchor_before_variant()?;
         if self.pending_space_after_colon {
             // consume the pending space request and start a new line
             self.pending_space_after_colon = false;
-            self.newline()?;
+            if !self.at_line_start {
+                self.newline()?;
+            }
             // When used as a mapping value, indent relative to the parent mapping's base,
             // not the serializer's current depth (which may still be the outer level).
             let base = self.current_map_depth.unwrap_or(self.depth);
@@ -1502,9 +1559,7 @@ impl<'a, 'b, W: Write> Serializer for &'a mut YamlSerializer<'b, W> {
             return res;
         }
         // Otherwise (top-level or sequence context).
-        if self.at_line_start {
-            self.write_indent(self.depth)?;
-        }
+        self.write_variant_indent(start)?;
         self.write_plain_or_quoted(variant)?;
         // Write ':' without a space and defer spacing/newline to the value serializer.
         self.out.write_str(":")?;
@@ -1688,6 +1743,7 @@ impl<'a, 'b, W: Write> Serializer for &'a mut YamlSerializer<'b, W> {
         if self.in_flow > 0 || key_flow {
             // Inside a flow collection (or as a composite key): `{Variant: [a, b]}`.
             self.write_space_if_pending()?;
+            self.write_scalar_prefix_if_anchor()?;
             self.out.write_str("{")?;
             self.write_plain_or_quoted(variant)?;
             self.out.write_str(": [")?;
@@ -1703,12 +1759,15 @@ impl<'a, 'b, W: Write> Serializer for &'a mut YamlSerializer<'b, W> {
             });
         }
         // Same placement rules as for struct variants.
+        let start = self.write_anchor_before_variant()?;
         if self.pending_space_after_colon {
             // Value position after a map key: "key: Variant:" is not valid YAML, so the
             // variant mapping starts on the next line, one level under the parent mapping.
             self.pending_space_after_colon = false;
             self.pending_inline_map = false;
-            self.newline()?;
+            if !self.at_line_start {
+                self.newline()?;
+            }
             let base = self.current_map_depth.unwrap_or(self.depth) + 1;
             self.write_indent(base)?;
             self.write_plain_or_quoted(variant)?;
@@ -1721,9 +1780,7 @@ impl<'a, 'b, W: Write> Serializer for &'a mut YamlSerializer<'b, W> {
                 first: true,
             });
         }
-        if self.at_line_start {
-            self.write_indent(self.depth)?;
-        }
+        self.write_variant_indent(start)?;
         self.write_plain_or_quoted(variant)?;
         self.out.write_str(":\n")?;
         self.at_line_start = true;
@@ -1860,6 +1917,7 @@ impl<'a, 'b, W: Write> Serializer for &'a mut YamlSerializer<'b, W> {
         if self.in_flow > 0 || key_flow {
             // Inside a flow collection (or as a composite key): `{Variant: {a: 1, b: 2}}`.
             self.write_space_if_pending()?;
+            self.write_scalar_prefix_if_anchor()?;
             self.out.write_str("{")?;
             self.write_plain_or_quoted(variant)?;
             self.out.write_str(": {")?;
@@ -1877,14 +1935,16 @@ impl<'a, 'b, W: Write> Serializer for &'a mut YamlSerializer<'b, W> {
         // If we are the value of a mapping key, YAML forbids keeping a nested mapping
         // on the same line (e.g., "key: Variant:"). Move the variant mapping to the next line
         // indented under the parent mapping's base depth.
-        let _was_inline_value = !self.at_line_start;
+        let start = self.write_anchor_before_variant()?;
         if self.pending_space_after_colon {
             // Value position after a map key: start the variant mapping on the next line.
             self.pending_space_after_colon = false;
             // A composite key's `: ` asks its value to continue on the same line; that line
             // ends here and the hint must not reach the fields.
             self.pending_inline_map = false;
-            self.newline()?;
+            if !self.at_line_start {
+                self.newline()?;
+            }
             // Indent the variant name one level under the parent mapping.
             let base = self.current_map_depth.unwrap_or(self.depth) + 1;
             self.write_indent(base)?;
@@ -1901,9 +1961,7 @@ impl<'a, 'b, W: Write> Serializer for &'a mut YamlSerializer<'b, W> {
             });
         }
         // Otherwise (top-level or sequence context), emit the variant name at current depth.
-        if self.at_line_start {
-            self.write_indent(self.depth)?;
-        }
+        self.write_variant_indent(start)?;
         self.write_plain_or_quoted(variant)?;
         self.out.write_str(":\n")?;
         self.at_line_start = true;
